@@ -12,7 +12,7 @@ type c12Mon struct {
 func c12PoolSize() int {
 	maxW := vParam("w", 2)
 	w := vNondet[int]("w")
-	vAssume(-1 <= w && w <= maxW)
+	vAssume(vParam("wmin", -1) <= w && w <= maxW)
 	return vConcrete(w)
 }
 
